@@ -174,6 +174,40 @@ def inline_block(stmts, env, k, guards, local_defs):
     return k(env)
 
 
+# Everything the inliner moves OUT of the returned expression — `if c: raise` in front of the body (a guard), `assert`,
+# a bare call statement — and the number of local function definitions of each name are recorded for every inlined
+# function and compared with this table at the end of `extract()`: a statement added in front of a modelled body is a
+# template mismatch even when the expression that is finally returned is unchanged.
+_SEEN = []
+EXPECTED_GUARDS = {
+    "__init__": ["call super().__init__(*args, **kwargs)"],
+    "Follow": ["raise if not isA(F, VectorField)"],
+    "ApparentHeading": ["raise if not isA(X, OrientedPoint)"],
+    "AngleFrom": ["assert X is not None or Y is not None"],
+    "AltitudeFrom": ["assert X is not None or Y is not None"],
+    "RelativeTo": ["raise if isA(X, VectorField) and isA(Y, VectorField) and (X.valueType != Y.valueType)",
+                   "raise if isA(X, OrientedPoint) and isA(Y, OrientedPoint)"],
+    "_coerce": ["raise if len(thing) != 3"],
+    "__getitem__": ["raise if isLazy(self.value(pos))"],
+}
+EXPECTED_DEFS = {
+    "directionalSpecHelper": {"makeContactOffset": 3},
+    **{n: {"helper": 1} for n in ("FacingToward", "FacingDirectlyToward", "FacingAwayFrom", "FacingDirectlyAwayFrom",
+                                  "ApparentlyFacing")},
+    "RelativeTo": {"lazyRelativeTo": 1, "knownOrientation": 1, "knownHeading": 1, "knownVector": 1, "helper": 1},
+    "Facing": {"helper": 2},
+}
+
+
+def check_guards():
+    for name, guards, defs in _SEEN:
+        want = EXPECTED_GUARDS.get(name, [])
+        expect(guards == want, f"{name}: statements in front of / beside the modelled body changed (guards, asserts, bare "
+               f"calls): got {guards}, want {want}")
+        wantd = EXPECTED_DEFS.get(name, {})
+        expect(defs == wantd, f"{name}: local function definitions changed: got {defs}, want {wantd}")
+
+
 class Inlined:
     def __init__(self, fn, env=None):
         env = dict(env or {})
@@ -182,6 +216,7 @@ class Inlined:
         self.fn, self.guards, self.defs = fn, [], {}
         self.value = inline_block(fn.body, env, lambda e: ast.Constant(None), self.guards, self.defs)
         self.env = env
+        _SEEN.append((fn.name, list(self.guards), {k: len(v) for k, v in self.defs.items()}))
 
     @property
     def text(self):
@@ -379,8 +414,26 @@ def _find_assign(fn, target):
     return [n for n in ast.walk(fn) if isinstance(n, ast.Assign) and len(n.targets) == 1 and is_name(n.targets[0], target)]
 
 
+ON_BODY = [
+    "if isA(thing, Object):\n    target = thing.onSurface\nelif canCoerce(thing, Vector, exact=True):\n    target = toVector(thing)\n"
+    "elif canCoerce(thing, Region):\n    target = toType(thing, Region)\nelse:\n    raise TypeError('_')",
+    "props = {'position': 1}",
+    "if isA(target, Region) and alwaysProvidesOrientation(target):\n    props['parentOrientation'] = 2",
+    "def helper(context):\n    if hasattr(context, 'position'):\n        if isA(target, Vector):\n            raise TypeError('_')\n"
+    "        pos = projectVectorHelper(target, context.position, context.onDirection)\n    elif isA(target, Vector):\n"
+    "        pos = target\n    else:\n        pos = Region.uniformPointIn(target)\n    values = {}\n"
+    "    contactOffset = CONTACT - context.baseOffset\n    if 'parentOrientation' in props:\n"
+    "        values['parentOrientation'] = target.orientation[pos]\n"
+    "        contactOffset = contactOffset.rotatedBy(values['parentOrientation'])\n    values['position'] = pos + contactOffset\n"
+    "    return values",
+    "return ModifyingSpecifier('On', props, DelayedArgument({'onDirection', 'baseOffset', 'contactTolerance'}, helper), "
+    "modifiable_props={'position'})",
+]
+
+
 def extract_on(tree):
     fn = get_def(tree, "On", VENEER)
+    body = [ast.unparse(subst(st, {})) for st in body_nodoc(fn)]
     assigns = _find_assign(fn, "contactOffset")
     expect(len(assigns) == 2, "On: expected two assignments to contactOffset")
     first = assigns[0].value
@@ -400,6 +453,10 @@ def extract_on(tree):
     expect("values['parentOrientation'] = target.orientation[pos]" in src, "On: parentOrientation is not target.orientation[pos]")
     expect("values['position'] = pos + contactOffset" in src, "On: position is not pos + contactOffset")
     expect("props = {'position': 1}" in src and "props['parentOrientation'] = 2" in src, "On: specified properties changed")
+    # the whole statement list (On mutates local dicts, so it is compared statement by statement, not inlined): a branch
+    # added in front of / around the contact-offset computation is a mismatch
+    want = [t.replace("CONTACT", ast.unparse(first.left)) for t in ON_BODY]
+    expect(body == want, f"On: statements changed:\n  got  {body}\n  want {want}")
     return [f"({v} - o{c})" for v, c in zip(vec, "xyz")]
 
 
@@ -451,6 +508,8 @@ def extract_facing(tree):
         # what is specified / what it depends on
         props = "{'yaw': 1, 'pitch': 1}" if found[1] else "{'yaw': 1}"
         spec = inl.text
+        expect(isinstance(inl.value, ast.Call) and is_name(inl.value.func, "Specifier") and len(inl.value.args) == 3
+               and not inl.value.keywords, f"{name}: does not return exactly one Specifier(name, props, value): {spec[:300]}")
         expect(spec.startswith("Specifier(") and spec.endswith(f", {props}, DelayedArgument({{'position', 'parentOrientation'}}, helper))"),
                f"{name}: specified properties / dependencies changed: {spec}")
         res[name] = found
@@ -755,6 +814,7 @@ def extract():
     _, cvtree = load(VECTORS)
     _, gtree = load(GEOMETRY)
     _, otree = load(OBJTYPES)
+    del _SEEN[:]
     try:
         d = {"specs": {k: extract_dirspec(vtree, k, f) for k, f in SPECS}}
         d["contact"] = extract_contact(vtree)
@@ -767,6 +827,7 @@ def extract():
         d["follow"] = extract_follow(cvtree)
         d["corners"], d["sides"] = extract_object_tables(otree)
         check_templates(vtree, cvtree, gtree, otree)
+        check_guards()
     except RecursionError:
         raise TemplateMismatch("source too deeply nested")
     return d
